@@ -537,7 +537,7 @@ def flows_to_return(body, start_local, extra_calls=()):
 
 def capture_operand(P, body, name):
     """(parent body, operand) stored in the captured variable `name` where the closure `body` is built; None if unknown"""
-    par = P.bodies.get(body.parent) if body.is_closure else None
+    par = (P.closure_parents(body) or [None])[0] if body.is_closure else None
     if par is None:
         return None
     for blk in par.blocks:
